@@ -162,12 +162,47 @@ def mon(R, s, g, ncase, nfd):
             sscale = float(np.max(np.abs(ref["S"]))) * max(1.0, float(np.max(np.abs(F1))) ** 2) + 1e-3 * young * 1e-6
             # conditioning of the spectral formulas when two stretches are close but different
             cond = 1.0 if (gap == 0.0 or gap > 1e-2 or stratum in ("two-equal-stretches", "spherical")) else 1e-2 / gap
+            # ---- finite-difference references of the documented operator flavours (+ dtau/dDF, K[2]=3 of
+            # Integrate.hxx::getTangentOperator), built once per case from the behaviour's own stress output in the stress
+            # measure each flavour differentiates (that output is judged against the closed form below)
+            FLAV = {0: ("dsig_dF", 0, ns, nt), 1: ("dS_dEGL", 1, ns, ns), 2: ("dPK1_dF", 2, nt, nt), 3: ("dtau_dDF", 0, ns, nt)}
+            refs = {}
+            if icase < nfd:
+                thf_of = {0: m2st(ref0["sig"], dim), 1: m2st(ref0["S"], dim), 2: m2t(ref0["P"], dim)}
+                Rp = F1 @ np.linalg.inv(sqrtm_sym(F1.T @ F1))
+                for to, (key_t, smf, nrow, ncol) in FLAV.items():
+                    if to == 1:
+                        x0 = m2st(0.5 * (F1.T @ F1 - np.eye(3)), dim)
+
+                        def f(x, smf=smf, nrow=nrow):
+                            U = sqrtm_sym(2 * st2m(x) + np.eye(3))
+                            q = b.call(0, 1.0, f0v, m2t(Rp @ U, dim), thf_of[smf], mp, [], b.pack_esv(), b.pack_esv(), K_extra=(smf, 1))
+                            return np.array(q["thf"][:nrow]) if q["rc"] == 1 else None
+                    elif to == 3:
+                        x0 = m2t(F1 @ np.linalg.inv(F0), dim)
+
+                        def f(x, smf=smf, nrow=nrow):
+                            Fx = t2m(x) @ F0
+                            q = b.call(0, 1.0, f0v, m2t(Fx, dim), thf_of[smf], mp, [], b.pack_esv(), b.pack_esv(), K_extra=(smf, 0))
+                            return np.linalg.det(Fx) * np.array(q["thf"][:nrow]) if q["rc"] == 1 else None
+                    else:
+                        x0 = f1v
+
+                        def f(x, smf=smf, nrow=nrow, to=to):
+                            q = b.call(0, 1.0, f0v, x, thf_of[smf], mp, [], b.pack_esv(), b.pack_esv(), K_extra=(smf, to))
+                            return np.array(q["thf"][:nrow]) if q["rc"] == 1 else None
+                    J, E = gbnp.richardson_jacobian(f, x0, np.full(ncol, 2e-5))
+                    R.n += 6 * ncol
+                    if any(j is None for j in J):
+                        refs[to] = None
+                    else:
+                        refs[to] = (np.array(J).T, float(np.max(np.array(E))))
             for sm in (0, 1, 2):
                 key_m = {0: "Cauchy", 1: "PK2", 2: "PK1"}[sm]
                 thf0 = {0: m2st(ref0["sig"], dim), 1: m2st(ref0["S"], dim), 2: m2t(ref0["P"], dim)}[sm]
                 exp = {0: m2st(ref["sig"], dim), 1: m2st(ref["S"], dim), 2: m2t(ref["P"], dim)}[sm]
-                for to in (0, 1, 2):
-                    key_t = {0: "dsig_dF", 1: "dS_dEGL", 2: "dPK1_dF"}[to]
+                for to in (0, 1, 2, 3):
+                    key_t, smf, nrow, ncol = FLAV[to]
                     o = b.call(4, 1.0, f0v, f1v, thf0, mp, [], b.pack_esv(), b.pack_esv(), K_extra=(sm, to))
                     R.n += 1
                     case = lambda: {"behaviour": name, "hyp": hyp, "young": young, "nu": nu, "F0": hexs(f0v), "F1": hexs(f1v), "K1": sm, "K2": to,
@@ -177,60 +212,37 @@ def mon(R, s, g, ncase, nfd):
                         R.violation("%s:%s:%s/%s:integration-failed" % (name, hyp, key_m, key_t),
                                     "elastic finite-strain step returned %d: %s" % (o["rc"], o["msg"]), case())
                         continue
-                    if True:
-                        got = np.array(o["thf"][:len(exp)])
-                        R.rec("%s:%s:stress:%s" % (name, hyp, key_m), float(np.max(np.abs(got - exp))), 1e-12 * cond * sscale, case,
-                              "returned %s stress differs from the %s reference (operator request %s): got %s expected %s"
-                              % (key_m, "Saint-Venant Kirchhoff" if measure == "GreenLagrange" else "Hencky", key_t, fl(got), fl(exp)),
-                              vkey="%s:%s:stress:%s:with-%s:%s" % (name, hyp, key_m, key_t, stratum))
+                    got = np.array(o["thf"][:len(exp)])
+                    R.rec("%s:%s:stress:%s" % (name, hyp, key_m), float(np.max(np.abs(got - exp))), 1e-12 * cond * sscale, case,
+                          "returned %s stress differs from the %s reference (operator request %s): got %s expected %s"
+                          % (key_m, "Saint-Venant Kirchhoff" if measure == "GreenLagrange" else "Hencky", key_t, fl(got), fl(exp)),
+                          vkey="%s:%s:stress:%s:with-%s:%s" % (name, hyp, key_m, key_t, stratum))
                     # the stress must not depend on the operator requested (nor on its request)
                     if to == 0:
-                        base = np.array(o["thf"][:len(exp)])
                         o0 = b.call(0, 1.0, f0v, f1v, thf0, mp, [], b.pack_esv(), b.pack_esv(), K_extra=(sm, to))
                         R.n += 1
                         R.rec("%s:%s:stress-independent-of-request:%s" % (name, hyp, key_m),
-                              float(np.max(np.abs(np.array(o0["thf"][:len(exp)]) - base))) if o0["rc"] == 1 else float("inf"), 1e-11 * sscale, case,
+                              float(np.max(np.abs(np.array(o0["thf"][:len(exp)]) - got))) if o0["rc"] == 1 else float("inf"), 1e-11 * sscale, case,
                               "stress returned without operator request differs")
-                    if icase >= nfd or sm != {0: 0, 1: 1, 2: 2}[to]:
-                        # finite differences only for the pairs (stress measure, operator) that are derivatives of each other
+                    if icase >= nfd:
                         continue
-                    # ---- tangent operator vs Richardson finite differences of the returned stress
-                    if to == 1:
-                        nrow, ncol = ns, ns
-                        Rp = F1 @ np.linalg.inv(sqrtm_sym(F1.T @ F1))
-                        E1 = 0.5 * (F1.T @ F1 - np.eye(3))
-                        x0 = m2st(E1, dim)
-
-                        def f(x):
-                            U = sqrtm_sym(2 * st2m(x) + np.eye(3))
-                            q = b.call(0, 1.0, f0v, m2t(Rp @ U, dim), thf0, mp, [], b.pack_esv(), b.pack_esv(), K_extra=(1, 1))
-                            return np.array(q["thf"][:ns]) if q["rc"] == 1 else None
-                    else:
-                        nrow, ncol = (ns if to == 0 else nt), nt
-                        x0 = f1v
-
-                        def f(x):
-                            q = b.call(0, 1.0, f0v, x, thf0, mp, [], b.pack_esv(), b.pack_esv(), K_extra=(sm, to))
-                            return np.array(q["thf"][:nrow]) if q["rc"] == 1 else None
+                    # ---- the operator of flavour K[2] must be the same derivative whatever the stress measure K[1] requested
+                    skey = "%s:%dD:tangent:%s:with-%s" % (name, dim, key_t, key_m)
+                    if refs.get(to) is None:
+                        R.skip(skey)
+                        continue
+                    Jm, est = refs[to]
                     K = np.array(o["K"][:nrow * ncol]).reshape(nrow, ncol)
-                    h = np.full(ncol, 2e-5)
-                    J, E = gbnp.richardson_jacobian(f, x0, h)
-                    R.n += 6 * ncol
-                    if any(j is None for j in J):
-                        R.skip("%s:%s:tangent:%s" % (name, hyp, key_t))
-                        continue
-                    Jm, Em = np.array(J).T, np.array(E).T
-                    kscale = float(np.max(np.abs(K)))
-                    est = float(np.max(Em))
+                    kscale = max(float(np.max(np.abs(K))), float(np.max(np.abs(Jm))))
                     if not (est <= 1e-6 * kscale):
-                        R.skip("%s:%s:tangent:%s" % (name, hyp, key_t))
+                        R.skip(skey)
                         continue
                     err = float(np.max(np.abs(K - Jm)))
                     tol = 50 * est + 1e-7 * cond * kscale + 64 * ULP * sscale / (2e-5 / 4)
-                    R.rec("%s:%s:tangent:%s" % (name, hyp, key_t), err, tol,
+                    R.rec(skey, err, tol,
                           lambda: dict(case(), K=fl(K.ravel()), FD=fl(Jm.ravel()), fd_error_estimate=est),
-                          "operator %s differs from the finite-difference derivative of the returned %s stress: max|K-FD|=%.4g (|K|max=%.4g)"
-                          % (key_t, key_m, err, kscale), vkey="%s:%s:tangent:%s:%s" % (name, hyp, key_t, stratum))
+                          "operator %s returned with the %s stress measure differs from the finite-difference derivative: max|K-FD|=%.4g (|K|max=%.4g)"
+                          % (key_t, key_m, err, kscale), vkey=skey)
             if icase < 1 and hyp == "Tridimensional":
                 R.samples.append({"behaviour": name, "hyp": hyp, "F1": fl(f1v), "young": young, "nu": nu, "sig": fl(m2st(ref["sig"], dim))})
         R.distinct += ncase
